@@ -98,13 +98,14 @@ class Ctx:
                 raise ToolFailure("constant %s not in cfg %s" % (k, cfg or module))
         open(os.path.join(d, module + ".cfg"), "w").write(cfgtxt)
         e = dict(os.environ)
-        jopts = "-Xmx%s -Xss64m" % heap
+        jopts = "-Xmx%s -Xss256m" % heap
         if deque:
             jopts += " -Dtlc2.tool.queue.IStateQueue=StateDeque"
         e["JAVA_TOOL_OPTIONS"] = jopts
         if env:
             e.update({k: str(v) for k, v in env.items()})
-        cmd = ["java", "-XX:+UseParallelGC", "-cp", TLA_CP, "tlc2.TLC", "-workers", str(workers),
+        # -Xss on the command line (not JAVA_TOOL_OPTIONS) also sizes the main thread, which computes initial states
+        cmd = ["java", "-Xss256m", "-XX:+UseParallelGC", "-cp", TLA_CP, "tlc2.TLC", "-workers", str(workers),
                "-metadir", os.path.join(d, "meta"), "-seed", str(self.seed)] + (extra or []) + [module]
         t = time.time()
         try:
